@@ -1881,7 +1881,9 @@ class t2data(object):
         else:
             if 'type' in self.solver: solver_type = self.solver['type']
             else: solver_type = self.parameter['option'][21]
-        self.lineq = {'type': [2, 1, 2, 2, 1, 2, 1][solver_type], 'epsilon': None,
+        lineq_types = [2, 1, 2, 2, 1, 2, 1]
+        if not (0 <= solver_type < len(lineq_types)): solver_type = 0 # default solver
+        self.lineq = {'type': lineq_types[solver_type], 'epsilon': None,
                       'max_iterations': None, 'gauss': None, 'num_orthog': None}
         self.insert_section('LINEQ')
         self.solver = {}
